@@ -66,7 +66,8 @@ def gen_plan(base_seed, i, tier):
             "sched_seed": rng.getrandbits(40),
         }
         if rng.random() < 0.35 and s < nsteps - 1:
-            step["crash_frac"] = rng.choice([-1, 0.0, 0.0, 1.0, "W-1", "1", round(rng.random(), 4), round(rng.random(), 4)])
+            step["crash_frac"] = rng.choice([-1, 0.0, 1.0, "W-1", "1", round(rng.random(), 4), round(rng.random(), 4),
+                                             "op:%.3f" % rng.random(), "op:%.3f" % rng.random(), "op:0.999"])
         elif rng.random() < 0.1 and s < nsteps - 1:
             step["enospc_frac"] = round(rng.random(), 3)
         steps.append(step)
@@ -194,19 +195,23 @@ def execute(plan):
         kw = {}
         if "crash_frac" in step or "enospc_frac" in step:
             snap = dict(FS.files), set(FS.dirs)
-            dry = _run(rows, cfg, step["sched_seed"], cache=True)
+            dry = _run(rows, cfg, step["sched_seed"], cache=True, crash_op=10 ** 9)
             out["runs"] += 1
             W = dry.get("bytes_written", 0)
+            nops = dry.get("fs_ops") or 0
             FS.files.clear(); FS.files.update(snap[0]); FS.dirs.clear(); FS.dirs.update(snap[1])
             if W > 0:
-                if "crash_frac" in step:
+                if isinstance(step.get("crash_frac"), str) and step["crash_frac"].startswith("op:"):
+                    # killed just before the k-th mutating file-system operation (open, close, rename, ...)
+                    kw["crash_op"] = min(int(float(step["crash_frac"][3:]) * nops), max(nops - 1, 0))
+                elif "crash_frac" in step:
                     kw["crash_after"], kw["crash_open"] = _crash_budget(step["crash_frac"], W)
                     if kw["crash_open"] is not None:
                         kw["crash_after"] = None
                 else:
                     kw["enospc_after"] = int(step["enospc_frac"] * W)
         if "crash_abs" in step:
-            kw = {"crash_open": step["crash_abs"][1]} if step["crash_abs"][0] == "open" else {"crash_after": step["crash_abs"][1]}
+            kw = {{"open": "crash_open", "op": "crash_op"}.get(step["crash_abs"][0], "crash_after"): step["crash_abs"][1]}
         res = _run(rows, cfg, step["sched_seed"], cache=True, **kw)
         out["runs"] += 1
         out["summary"].append(common.run_summary(res))
@@ -237,18 +242,18 @@ def execute_enum(plan):
     out = {"violations": [], "nontrivial": None, "summary": [], "runs": 0}
     ref = uncached(rows, cfg, seed)
     FS.files.clear(); FS.dirs.clear()
-    dry = _run(rows, cfg, seed, cache=True)
+    dry = _run(rows, cfg, seed, cache=True, crash_op=10 ** 9)
     W = dry.get("bytes_written", 0)
     ch, nch = plan["chunk"]
     stride = plan.get("stride", 1)
-    points = [("open", k) for k in range(len(FS.files))] + [("byte", n) for n in sorted(set(list(range(0, W + 1, stride)) + [1, W - 1, W]))]
+    points = [("op", k) for k in range(dry.get("fs_ops") or 0)] + [("byte", n) for n in sorted(set(list(range(0, W + 1, stride)) + [1, W - 1, W]))]
     nontriv = []
     vs = []
     for pi, (kind, n) in enumerate(points):
         if pi % nch != ch:
             continue
         FS.files.clear(); FS.dirs.clear()
-        kw = {"crash_open": n} if kind == "open" else {"crash_after": n}
+        kw = {"crash_op": n} if kind == "op" else {"crash_after": n}
         r1 = _run(rows, cfg, seed, cache=True, **kw)
         out["runs"] += 1
         out["summary"].append(common.run_summary(r1))
